@@ -39,6 +39,7 @@ def c05(tier, seed):
 
 
 ENGINES = {
+    "order": ({"C08"}, "call-order recorders over generate/map/zip/fold/clone/default x receiver forms"),
     "chunks": ({"C10"}, "chunk regrouping: partition arithmetic on addresses/extents for every L, write-through, N = 0"),
     "regroup": ({"C11"}, "flatten/unflatten: row-major identity order, same-storage by-reference views"),
     "layout": ({"C01"}, "size/align observers (full cross product in layoutx0..7), materialisation, drop tiling, round trips"),
@@ -218,7 +219,38 @@ def c11(tier, seed):
     ]
 
 
+def c08(tier, seed):
+    if tier == "quick":
+        return [
+            Run("order", "debug", [], shards=4),
+            Run("order", "miri", ["--maxn", "5"], shards=16, label="order/miri(N<=5)"),
+        ]
+    return [
+        Run("order", "debug", [], shards=8),
+        Run("order", "release", [], shards=8),
+        Run("order", "miri", ["--maxn", "9"], shards=32, label="order/miri(N<=9)"),
+    ]
+
+
 SPECS = {
+    "C08": dict(
+        engine="order",
+        technique="call-order recorder: closures and element Clone/Default impls log (call number, arguments); compared with the same computation on slices for every receiver/argument form",
+        level="exploration",
+        level_text=("For N in 0..=13, 15..17, 24, 31..33, 63..65, 100, 127..129, 255..257, 1000, 1024 (511..513, 1023 in thorough): generate via the "
+                    "owned type, &S, &mut S and Box; map and fold in the four receiver forms; zip in the nine stack forms plus Box x Box; Clone and "
+                    "Default (stack and boxed). Recording closures and element impls must see indices / arguments 0..N-1 ascending exactly once and "
+                    "result[i] must be the i-th value returned; fold uses a non-commutative accumulator. Element types cover the drop branch (Tok), "
+                    "the no-drop branch (u32), a no-drop type with an observable hand-written Clone/Default, and zero-sized logging types."),
+        level_note="Trusted: the recording closures in harness/src/bin/order.rs.",
+        runs=c08,
+        min_cases=3000,
+        must_count=["ledger.clones", "ledger.drops"],
+        exhaustive={"quick": True, "thorough": True},
+        rule="one case = (operation.form, element-type combination, N); non-trivial = N > 0",
+        explanation="recorded call sequences vs 0..N-1 and vs the operands' identities; results vs the values the closure returned",
+        assumptions=["N from the lattice"],
+    ),
     "C10": dict(
         engine="chunks",
         technique="address/extent monitor on both parts for every slice length L in 0..=4N+3 + identity read-back + write-through with guard elements; Miri for out-of-bounds views; const-evaluator half via generated const items",
